@@ -10,4 +10,16 @@ namespace Tie.PinsRun
 /-- `pub fn run<W: Write>`, src/program.rs -/
 theorem pinRun : Generated.pinRun = ("while !self.done() { if self.options.show_registers_and_memory { self.dump_y86(out)?; } self.step_with_output(out)?; match self.options.prompt { Some(ref prompt) => prompt(), None => {} } } Ok(())" : String) := by rfl
 
+/-- `pub fn set_timeout(&mut self, new_timeout: u32)`, src/program.rs -/
+theorem pinSetTimeout : Generated.pinSetTimeout = ("self.timeout = new_timeout;" : String) := by rfl
+
+/-- `pub fn status_or_default(&self, default: u8)`, src/program.rs -/
+theorem pinStatusOrDefault : Generated.pinStatusOrDefault = ("let value = self.values.get(\"Stat\").unwrap_or(&WireValue::from_u64(default as u64)).bits; value as u8" : String) := by rfl
+
+/-- `pub fn halted(&self)`, src/program.rs -/
+theorem pinHalted : Generated.pinHalted = ("self.status_or_default(1) == 2" : String) := by rfl
+
+/-- `pub fn timed_out(&self)`, src/program.rs -/
+theorem pinTimedOut : Generated.pinTimedOut = ("self.cycle >= self.options.timeout" : String) := by rfl
+
 end Tie.PinsRun
